@@ -393,6 +393,61 @@ def ob_map_where_join(chk, P, n_max):
         ob.absorb(ex)
 
 
+def py_slice_list(vals, off, ln):
+    n = len(vals)
+    if ln < 1: return None
+    if off < 0: off += n
+    if off < 0 or off > n: return []
+    return vals[off:off + ln]
+
+
+def ob_slice_arrays(chk, P, n_max):
+    with chk.obligation('slice/arrays', 'slice on an array returns the contiguous run of at most `length` elements starting at index `offset` (negative offsets count from the end, out-of-range starts '
+                        'give the empty array), i.e. it agrees with indexing; length < 1 is an error; no panic for any offset/length',
+                        {'arrays': f'0..{n_max} elements over integer (any i64) and nil', 'offset': 'any i64', 'length': 'absent or any i64'}) as ob:
+        ex = Executor(P, models_with([])); ex.seed = chk.seed; ex.max_steps = 100000
+        fn = P.find_method('SliceFilter', 'evaluate', 'Filter', 'lib')
+        for n in range(n_max + 1):
+            for has_len in (False, True):
+                st = State(); elems = mk_elems(st, ['int' if i % 3 != 2 else 'nil' for i in range(n)])
+                # a nil element is tagged by its position through distinct neighbours; integer elements are distinct symbols
+                off = z3.BitVec('off', 64); ln = z3.BitVec('len', 64)
+                args = Adt('SliceArgs', None, [expr_stub(value_scalar(scalar_int(Int(off, 'i64'))), 'offset'),
+                                               Some(expr_stub(value_scalar(scalar_int(Int(ln, 'i64'))), 'length')) if has_len else NONE], ['offset', 'length'])
+                for s2, kind, val in ex.run(fn, [st.ref(Adt('SliceFilter', None, [args], ['args'])), st.ref(array_value(elems)), st.ref(Opaque(('RT',)))], st):
+                    ob.paths += 1; ob.reached()
+                    def report(role, what, m):
+                        vals = [e.concrete(m) for e in elems]; o = m.eval(off, model_completion=True).as_signed_long(); l = m.eval(ln, model_completion=True).as_signed_long() if has_len else None
+                        exp = py_slice_list(vals, o, 1 if l is None else l)
+                        sc = {'kind': 'template', 'parser': 'stdlib', 'template': replay_tpl('slice: o' + (', l' if has_len else '')), 'globals': {'a': vals, 'o': o, 'l': l}}
+                        ob.violation(role, f'{what}: {py_json(vals)} | slice: {o}' + (f', {l}' if has_len else ''), {'array': vals, 'offset': o, 'length': l, 'expected': exp}, sc,
+                                     lambda r, e=exp: (r.get('outcome') != 'err') if e is None else (r.get('outcome') != 'ok' or r.get('output') != fmt_list(e)))
+                    if kind == 'panic':
+                        report('slice/panic', f'slice panics ({val})', ob.decide(ex, s2.conds, z3.BoolVal(True))); continue
+                    lnv = ln if has_len else z3.BitVecVal(1, 64)
+                    out = result_array(s2, val) if kind == 'ret' else None
+                    if out is None:
+                        post = lnv < 1 if (kind == 'ret' and val.variant == 'Err') else z3.BoolVal(False)
+                    else:
+                        got = [repr(x) for x in out]; keys = [e.key for e in elems]
+                        good = []
+                        for a in range(n + 1):
+                            for k in range(0, n - a + 1):
+                                if got != keys[a:a + k]: continue
+                                if n == 0: start_ok = (off == 0)
+                                elif a == n: start_ok = (off == n)
+                                else: start_ok = z3.Or(off == a, off == a - n)
+                                cnt_ok = (lnv == k) if k < n - a else (lnv >= n - a)
+                                if k == 0 and n - a > 0: cnt_ok = z3.BoolVal(False)
+                                good.append(z3.And(start_ok, cnt_ok, lnv >= 1))
+                        if not got: good.append(z3.And(z3.Or(off > n, off < -n), lnv >= 1))
+                        post = z3.Or(*good) if good else z3.BoolVal(False)
+                    m = ob.decide(ex, s2.conds, z3.Not(post))
+                    if m is not None: report('slice/wrong-piece', f'slice returns {out if out is not None else val}', m)
+                ob.sample({'len': n, 'has_length': has_len})
+        ob.absorb(ex)
+
+
 def py_expect(name, vals, g, tpl_filter):
     if name == 'compact':
         if "'p'" in tpl_filter: out = [v for v in vals if isinstance(v, dict) and v.get('p') is not None]
@@ -416,3 +471,4 @@ def run(chk):
     ob_uniq(chk, P, n)
     ob_simple_array_filters(chk, P, 3 if quick else 4)
     ob_map_where_join(chk, P, 3 if quick else 4)
+    ob_slice_arrays(chk, P, 4 if quick else 6)
